@@ -137,5 +137,6 @@ func init() {
 		r.Required = []string{"rotated", "tick", "reopen", "delete", "ttl"}
 		r.Explore(c01Profile(r.Tier))
 		runWide(r)
+		runKVLong(r, "C01", []core.Cfg{{Mode: core.K, Seg: 392}, {Mode: core.KV, RW: core.M, Start: core.M, Seg: 392}})
 	}
 }
